@@ -3,7 +3,7 @@ from .. import common, gen, mergecorr, oracles, t2
 from . import base
 
 THEOREMS = ['C03_constants', 'C03_binary', 'C03_winner', 'C03_metadata', 'C03_container_priority_applies_below', 'C03_priorities_refine',
-            'C03_every_leaf_path_latest_of_highest', 'C03_merge_is_prioritised_update', 'C03_prediction_sound', 'C03_document_prediction_sound', 'C03_update_is_pointwise', 'C03_evaluated_config', 'C03_no_lists_no_side_condition']
+            'C03_every_leaf_path_latest_of_highest', 'C03_merge_is_prioritised_update', 'C03_prediction_sound', 'C03_document_prediction_sound', 'C03_update_is_pointwise', 'C03_evaluated_config', 'C03_no_lists_no_side_condition', 'C03_side_condition_document_by_document']
 
 
 def in_domain(docs):
